@@ -49,3 +49,19 @@ package isaac
 //@ func BlockItemReadersDecode
 //@   trusted
 //@   modifies *
+
+// ---- C07: proposer selection is deterministic and picks a suffrage member ------------
+
+//@ func (BlockBasedProposerSelector).Select
+//@   prop C07
+//@   opt deterministic
+//@   requires len(nodes) >= 2 ==> previousBlock != nil
+//@   ensures [empty] len(nodes) < 1 ==> r1 != nil
+//@   ensures [member] len(nodes) >= 1 ==> r1 == nil && exists(i, 0 <= i && i < len(nodes) && r0 == nodes[i])
+
+// the candidate list is put into one canonical order (sorted by address) so
+// that every node computes the same index -> same proposer
+//@ func (*BaseProposalSelector).getNodes
+//@   prop C07
+//@   requires f != nil
+//@   ensures [sorted] r2 == nil && r1 ==> len(r0) >= 1 && forall(i, j, 0 <= i && i < j && j < len(r0) ==> !(r0[j].Address().String() < r0[i].Address().String()))
